@@ -15,5 +15,7 @@ def run_pertype(prop, tier, seed, flavour="plain"):
     od = core.run_dir(prop, tier)
     paths = core.build(targets(flavour))
     return core.run_sharded([{"name": "pertype", "binary": paths["pertype"], "nshards": core.NCPU, "out": od,
-                              "args": ["--seed", str(seed), "--tier", tier, "--prop", prop],
+                              "args": ["--seed", str(seed), "--tier", tier, "--prop", prop]
+                                      + core.deep(tier, **{"C14": dict(pairs=20000000, triples=10000000), "C16": dict(values=3000000),
+                                                           "C17": dict(probes=1000000)}.get(prop, {})),
                               "env": core.SAN_ENV if flavour == "san" else None}], timeout=3600)
